@@ -216,15 +216,9 @@ def classify_failure(case, obs, f):
     op = case['ops'][f['step']]
     kind, clause = op['op'], f['clause']
     prev_regs = obs['steps'][f['step'] - 1]['regs'] if f['step'] > 0 else {}
-    if kind == 'register' and op['name'] in prev_regs and clause in ('awg_stale', 'dac_stale') \
-            and f['name'] == op['name']:
-        # with update=True, or with update=False when no generator that already holds the name is used again
-        return 'C18-reregister-stale'
     if kind in WIRING_OPS and prev_regs and clause in ('awg_stale', 'awg_missing', 'awg_entry', 'dac_stale', 'dac_missing',
                                                        'dac_entry', 'record'):
         return 'C18-rewire-stale'
-    if (kind == 'clear' and clause == 'awg_armed_stale') or (kind == 'remove' and clause == 'dac_armed_stale'):
-        return 'C18-armed-stale'
     if f['dirty_before']:
         # the invariant was already violated (by one of the classes above) before this call: knock-on effects of a
         # stale copy (it changes clause when its name is removed / re-registered) are not attributed separately
